@@ -146,6 +146,32 @@ def run(ctx):
                 break
         kinds["real-invocations"] = nreal
         distinct.add(("real", keep, attic))
+    # ---- a step executed again and again in one invocation, resumed by its real path and through a symbolic
+    # link to it (an operator's `current` link): every attempt gets a new log, earlier logs stay as they are
+    for t in range(ctx.n(1, 6)):
+        root = os.path.join(ctx.scratch, "c17again%d" % t)
+        shutil.rmtree(root, ignore_errors=True)
+        acfg = dict(steps=[("one", False, 0, 0), ("flaky/two", False, 0, 3)], skip=[], cmdline_skip=[], ncpu=1)
+        r1 = cr.run(acfg, root=root, hook=False)
+        if not r1["builddir"]:
+            continue
+        link = os.path.join(root, "current")
+        os.symlink(os.path.basename(r1["builddir"]), link)
+        seen_logs = {fn: c for fn, c in r1["logs"].items() if fn != "robsd.log"}     # (robsd.log is the invocation's own, appended to)
+        for attempt, via in enumerate([r1["builddir"], link, link if t % 2 else r1["builddir"]]):
+            r = cr.run(acfg, root=root, keep_root=True, hook=False, resume_dir=via)
+            real = {fn: open(os.path.join(r1["builddir"], fn), errors="replace").read() for fn in os.listdir(r1["builddir"]) if (fn.endswith(".log") or ".log." in fn) and fn != "robsd.log"}
+            changed = [fn for fn, c in seen_logs.items() if real.get(fn) != c]
+            new = [fn for fn in real if fn not in seen_logs]
+            nreal += 1
+            if changed or len(new) != 1:
+                ctx.violation("resuming an invocation %s (attempt %d of its failing step): %s" % (
+                    "through a symbolic link to it" if via == link else "by its path", attempt + 2,
+                    "the log %s of an earlier attempt was overwritten" % changed[0] if changed else "%d new log files instead of one" % len(new)),
+                    dict(logs_before=sorted(seen_logs), logs_after=sorted(real), rows=r["rows"], cmd="canvas -d -C CONF -r %s" % ("ROOT/current" if via == link else "ROOT/<invocation>")))
+                break
+            seen_logs = real
+        kinds["re-run-via-link"] = kinds.get("re-run-via-link", 0) + 1
     ans = ctx.model(reqs) if reqs else []
     for q, a, want in zip(reqs, ans, obs):
         if a != want:
